@@ -13,6 +13,8 @@ namespace {
 struct Region { char* p; size_t n; int pool; bool freed; };
 struct PoolCtx {
     int id; rml::MemoryPool* pool = nullptr; bool fixed = false; int raw_allocs = 0; int fail_at = 0; int fail_until = 0; bool destroyed = false;
+    bool keep_all = false;      // MemPoolPolicy::keepAllMemory
+    int refusals = 0;           // refused raw requests since the last pool operation returned
     std::vector<void*> blocks;
 };
 std::vector<Region>* g_regions = nullptr;
@@ -28,7 +30,13 @@ void* raw_alloc(intptr_t pool_id, size_t& bytes) {
         g_regions->push_back({g_fixed_buf, g_fixed_size, pc.id, false});
         return g_fixed_buf;
     }
-    if (pc.fail_at && k >= pc.fail_at && k <= pc.fail_until) { sim::fault_fired("pool-raw-oom"); return nullptr; }
+    if (pc.fail_at && k >= pc.fail_at && k <= pc.fail_until) {
+        sim::fault_fired("pool-raw-oom");
+        // a refused request must make the pool operation fail, not retry for ever
+        SIM_CHECK(++pc.refusals <= 2000, "oracle:pool-oom-spin", "pool %d (keepAllMemory=%d) asked its refusing raw allocator %d times within one operation and never gave up", pc.id, (int)pc.keep_all, pc.refusals);
+        sim::upoint();
+        return nullptr;
+    }
     char* p = (char*)malloc(bytes);
     g_regions->push_back({p, bytes, pc.id, false});
     return p;
@@ -76,9 +84,15 @@ SIM_SCENARIO(scen_c18, "c18", "C18", 3000000, 20000) {
     pools.resize((size_t)npools);
     for (int i = 0; i < npools; ++i) {
         pools[i].id = i; pools[i].fixed = i == 1 && sim::draw_bool("fixed");
-        if (!pools[i].fixed && sim::draw_bool("pool_oom")) { pools[i].fail_at = (int)sim::draw_range(1, 4, "pool_fail_at"); pools[i].fail_until = pools[i].fail_at + (int)sim::draw(3, "pool_fail_len"); }
+        if (!pools[i].fixed) pools[i].keep_all = sim::draw_bool("keep_all_memory");
+        if (!pools[i].fixed && sim::draw_bool("pool_oom")) {
+            pools[i].fail_at = (int)sim::draw_range(1, 8, "pool_fail_at");
+            int len = (int)sim::draw(4, "pool_fail_len");      // 0-2 further calls, or refused from there on
+            pools[i].fail_until = len == 3 ? 1 << 30 : pools[i].fail_at + len;
+        }
     }
     d.add(hx::fmt("tbbmalloc-oom threads=%d oom_at=%llu..%llu pools=%d", nthreads, (unsigned long long)sim::g_cfg.oom_at, (unsigned long long)sim::g_cfg.oom_until, npools));
+    for (auto& pc : pools) d.add(hx::fmt("pool%d: fixed=%d keepAll=%d raw-fail=%d..%d", pc.id, (int)pc.fixed, (int)pc.keep_all, pc.fail_at, pc.fail_until));
     std::vector<std::vector<Plan>> plan(nthreads);
     for (int t = 0; t < nthreads; ++t) {
         int nops = (int)sim::draw_range(2, 14, "nops");
@@ -94,7 +108,7 @@ SIM_SCENARIO(scen_c18, "c18", "C18", 3000000, 20000) {
     d.publish();
     for (int i = 0; i < npools; ++i) {
         // fixed pools get no raw-free callback (as oneTBB's own fixed_pool wrapper does): the buffer stays with its owner
-        rml::MemPoolPolicy pol(raw_alloc, pools[i].fixed ? (rml::rawFreeType) nullptr : raw_free, 0, pools[i].fixed, false);
+        rml::MemPoolPolicy pol(raw_alloc, pools[i].fixed ? (rml::rawFreeType) nullptr : raw_free, 0, pools[i].fixed, pools[i].keep_all);
         rml::MemPoolError e = rml::pool_create_v1((intptr_t)i, &pol, &pools[i].pool);
         if (e != rml::POOL_OK) { pools[i].pool = nullptr; sim::probe("pool-create-failed"); }
     }
@@ -149,7 +163,8 @@ SIM_SCENARIO(scen_c18, "c18", "C18", 3000000, 20000) {
             default: {   // pool operations
                 PoolCtx& pc = pools[(size_t)p.pick % pools.size()];
                 if (!pc.pool) break;
-                size_t sz = p.size % 70000;
+                size_t sz = (p.pick & 8) ? p.size % ((size_t)5 << 20) : p.size % 70000;     // also large objects (own regions)
+                pc.refusals = 0;
                 if (p.k == P_MALLOC || p.k == P_ALIGNED) {
                     void* q = p.k == P_MALLOC ? rml::pool_malloc(pc.pool, sz) : rml::pool_aligned_malloc(pc.pool, sz, p.align > 4096 ? 4096 : p.align);
                     if (!q) { ++nulls; break; }
